@@ -772,3 +772,47 @@ def push_proj(e):
             return ('never',)
         return ('variant', inner, e[2])
     return e
+
+
+def inline_private(ctx, e, config='default', keep=()):
+    """`e` with calls of non-public crate functions (private helpers such as `fn is_over(&self)`) replaced by their
+    bodies; public functions and the ones named in `keep` stay calls"""
+    il = inliner(ctx, config)
+    facts = ctx.facts(config) if config != 'default' else ctx.facts()
+
+    def only(k):
+        fn = facts.fns.get(k)
+        return fn is not None and not fn.get('pub') and k not in keep
+    try:
+        cur = norm(e)
+        for _ in range(4):
+            nxt = norm(il.inline(cur, only=only))
+            if nxt == cur:
+                break
+            cur = nxt
+        return cur
+    except Exception:
+        return norm(e)
+
+
+def count_guard_holds(g, n, setexpr, canon):
+    """does guard g (a taken switch edge) hold when popcount(setexpr) == n?  None if g is not a condition on that count.
+    Understands `s == EMPTY` / `s != EMPTY`, comparisons of `s.popcnt()` with a constant, and `match s.popcnt() {..}`."""
+    c = canon(g['cond'])
+    pc = ('popcnt', setexpr)
+    if c[0] in ('bbeq', 'bbne') and ('bb0',) in c[1:] and setexpr in c[1:]:
+        tv = (n == 0) if c[0] == 'bbeq' else (n != 0)
+        t_ = truth(g)
+        return None if t_ is None else (tv == t_)
+    if c == pc or (c[0] == 'cast' and c[1] == pc):
+        vals = g['vals']
+        if 'otherwise' in vals:
+            listed = [v for v in g['all'] if v != 'otherwise']
+            return n not in listed
+        return n in vals
+    if c[0] == 'bin' and c[1] in ('Eq', 'Ne', 'Lt', 'Le', 'Gt', 'Ge') and c[3][0] == 'int' and c[2] == pc:
+        k = c[3][1]
+        tv = {'Eq': n == k, 'Ne': n != k, 'Lt': n < k, 'Le': n <= k, 'Gt': n > k, 'Ge': n >= k}[c[1]]
+        t_ = truth(g)
+        return None if t_ is None else (tv == t_)
+    return None
